@@ -1,6 +1,8 @@
 package mon
 
 import (
+	"bytes"
+	"encoding/base64"
 	"encoding/binary"
 	"fmt"
 	"strings"
@@ -200,6 +202,35 @@ func c20Pairs(w *core.W, j int) {
 				name string
 				r    *model.Rec
 			}{"rdata-name-case", v})
+		}
+		// a base64 field whose text differs from the original's only in letter case: other octets
+		for fi, fd := range l.Fields {
+			if fd.Kind != model.KB64 && fd.Kind != model.KB64N {
+				continue
+			}
+			old, ok := base.Vals[fi].([]byte)
+			if !ok || len(old) == 0 {
+				continue
+			}
+			txt := []byte(base64.StdEncoding.EncodeToString(old))
+			for i, c := range txt {
+				if c >= 'a' && c <= 'z' || c >= 'A' && c <= 'Z' {
+					txt[i] = c ^ 0x20
+				}
+			}
+			nb, err := base64.StdEncoding.DecodeString(string(txt))
+			if err != nil || len(nb) != len(old) || bytes.Equal(nb, old) {
+				continue
+			}
+			v := cloneRec(base)
+			v.Vals[fi] = nb
+			v.Fixup()
+			if c01Class(v, nil) == "" {
+				variants = append(variants, struct {
+					name string
+					r    *model.Rec
+				}{"base64-text-case:" + fd.Go, v})
+			}
 		}
 		for m := 0; m < 3; m++ {
 			v := cloneRec(base)
